@@ -235,3 +235,20 @@ Example pad_split_example :
 Proof. vm_compute. reflexivity. Qed.
 Example pad_split_spatial_only : pad_split [(0, 0); (1, 1); (2, 1); (0, 0)] = None.
 Proof. vm_compute. reflexivity. Qed.
+
+(* ---------- an average pool as a convolution with a diagonal kernel ---------- *)
+Theorem diag_channel_sum_lemma depth co f : (co < depth)%nat -> channel_mix depth diag_weight f co = f co.
+Proof.
+  intros H. unfold channel_mix.
+  replace depth with (co + (1 + (depth - co - 1)))%nat by lia.
+  rewrite !seq_app, !map_app, !zsum_app. cbn [seq map zsum fold_right Nat.add].
+  rewrite zsum_map_zero, zsum_map_zero.
+  - unfold diag_weight. rewrite Nat.eqb_refl. lia.
+  - intros j Hj. apply in_seq in Hj. unfold diag_weight. destruct (Nat.eqb_spec j co); [lia|]. lia.
+  - intros j Hj. apply in_seq in Hj. unfold diag_weight. destruct (Nat.eqb_spec j co); [lia|]. lia.
+Qed.
+
+(* ones everywhere (every output channel sums all input channels) is not the pool as soon as there are two channels *)
+Theorem all_ones_kernel_refuted_lemma :
+  exists depth co f, (co < depth)%nat /\ channel_mix depth (fun _ _ => 1) f co <> f co.
+Proof. exists 2%nat, 0%nat, (fun ci => Z.of_nat ci + 1). split; [lia|]. vm_compute. discriminate. Qed.
